@@ -51,7 +51,7 @@ def replay(ctx, case):
 
 
 MANIFEST = dict(
-    text="Proof: _get_iota, regenerated from the source, selects bit j and deletes it (C20_iota_delta, C20_iota_index_bits, all n); Lagrange's identity behind the Meyer-Wallach formula over any field with involution (C20_lagrange, C20_mw_per_qubit, C20_purity_form: the code's per-qubit sum is (1 - Tr rho_k^2)/2). On that per-qubit quantity D(u, v), for every dimension: D = 0 when both halves are multiples of one vector, i.e. on product states (C20_mw_zero_on_product); a one-qubit gate on the same qubit multiplies D by |det|^2 = 1 (C20_mw_unitary_same_qubit); a one-qubit gate on another qubit, or any isometry applied to both halves, leaves 2D unchanged (C20_mw_unitary_other_qubit); so does any relabelling of the remaining qubits (C20_mw_relabel); over the complex numbers 0 <= 4D <= 1 for unit vectors, hence the measure lies in [0,1] (C20_mw_range). Conversely D = 0 forces the two halves to be proportional (C20_mw_zero_only_if_proportional, C20_mw_zero_multiple): a vanishing measure means that every qubit is unentangled from the rest; the last step from there to a full product state is not formalised. Tie: translator validated by executing the translation against CPython for every argument (n<=6/8). The geometric measure lies in [0,1] for whatever unit product state is returned (C20_geometric_range, Cauchy-Schwarz), given the post-conditions evaluated on every input (the returned product state is normalised and the reported value is 1 - its fidelity with the input). The value, the invariances on the code itself and the remaining post-conditions are also evaluated; the convergence of the optimiser is not a theorem.",
+    text="Proof: _get_iota, regenerated from the source, selects bit j and deletes it (C20_iota_delta, C20_iota_index_bits, all n); Lagrange's identity behind the Meyer-Wallach formula over any field with involution (C20_lagrange, C20_mw_per_qubit, C20_purity_form: the code's per-qubit sum is (1 - Tr rho_k^2)/2). On that per-qubit quantity D(u, v), for every dimension: D = 0 when both halves are multiples of one vector, i.e. on product states (C20_mw_zero_on_product); a one-qubit gate on the same qubit multiplies D by |det|^2 = 1 (C20_mw_unitary_same_qubit); a one-qubit gate on another qubit, or any isometry applied to both halves, leaves 2D unchanged (C20_mw_unitary_other_qubit); so does any relabelling of the remaining qubits (C20_mw_relabel); over the complex numbers 0 <= 4D <= 1 for unit vectors, hence the measure lies in [0,1] (C20_mw_range). Conversely D = 0 forces the two halves to be proportional (C20_mw_zero_only_if_proportional, C20_mw_zero_multiple): a vanishing measure means that every qubit is unentangled from the rest; the last step from there to a full product state is not formalised. Tie: translator validated by executing the translation against CPython for every argument (n<=6/8). The geometric measure lies in [0,1] for whatever unit product state is returned (C20_geometric_range, Cauchy-Schwarz; C20_geometric_zero_at_state: the bound 0 is attained when the returned product state is the state itself), given the post-conditions evaluated on every input (the returned product state is normalised and the reported value is 1 - its fidelity with the input). The value, the invariances on the code itself and the remaining post-conditions are also evaluated; the convergence of the optimiser is not a theorem.",
     note='Modelled, not verified: numpy sums; tensorly Tucker iteration (post-conditions evaluated only).',
     technique='Coq proof (Z bit lemmas; mathcomp big-operator algebra) on translator-regenerated definitions + translation validation + numpy evaluation',
     design_ref='DESIGN.md section 4, C20')
